@@ -30,15 +30,19 @@ func enabledHistory(s *cases.Set, c bandcfg.Config, ops []bandcfg.Op, kind strin
 		}
 		chans = append(chans, fmt.Sprintf("(%d%%Z, %s%%Z, %s%%Z)", ch.Frequency, bandcfg.Z(int64(ch.MinDR)), bandcfg.Z(int64(ch.MaxDR))))
 	}
+	var customs []int64
+	for _, i := range b.GetCustomUplinkChannelIndices() {
+		customs = append(customs, int64(i))
+	}
 	var edr []int64
 	for _, v := range b.GetEnabledUplinkDataRates() {
 		edr = append(edr, int64(v))
 	}
 	s.Add(cases.Case{
-		Term: fmt.Sprintf("CEnabledHist %d %s %s [%s] %s", c.Index, bandcfg.Ops(ops), errs, strings.Join(chans, "; "), cq.Zs(edr)),
+		Term: fmt.Sprintf("CEnabledHist %d %s %s [%s] %s %s", c.Index, bandcfg.Ops(ops), errs, strings.Join(chans, "; "), cq.Zs(customs), cq.Zs(edr)),
 		Key:  fmt.Sprintf("enabled-drs-hist:%s:ops=%s", c.Key(), bandcfg.OpsKey(ops)), Kind: kind, Nontrivial: true,
 		Replay: map[string]interface{}{"api": "GetConfig(name, repeater, dwell); history; GetEnabledUplinkDataRates()",
-			"name": string(c.Name), "repeater": c.Repeater, "dwell400ms": c.Dwell, "history": bandcfg.OpsReplay(ops), "observed": edr}})
+			"name": string(c.Name), "repeater": c.Repeater, "dwell400ms": c.Dwell, "history": bandcfg.OpsReplay(ops), "observed": edr, "observed_channels_freq_min_max": chans, "observed_custom_indices": customs}})
 }
 
 func enabledHistories(s *cases.Set, r *cq.RNG, thorough bool, cfgs []bandcfg.Config) {
@@ -47,6 +51,8 @@ func enabledHistories(s *cases.Set, r *cq.RNG, thorough bool, cfgs []bandcfg.Con
 	for _, c := range cfgs {
 		if c.Name == "IN865" {
 			enabledHistory(s, c, []bandcfg.Op{{Freq: 866785000, MinDR: 7, MaxDR: 7}}, "enabled-uplink-data-rates-after-history-corpus")
+			// seeded defect: AddChannel merged the range into the existing (default) channel of that frequency
+			enabledHistory(s, c, []bandcfg.Op{{Freq: 865062500, MinDR: 7, MaxDR: 7}}, "enabled-uplink-data-rates-after-history-corpus")
 		}
 	}
 	for _, c := range cfgs {
@@ -82,6 +88,37 @@ func enabledHistories(s *cases.Set, r *cq.RNG, thorough bool, cfgs []bandcfg.Con
 			tops = append(tops, bandcfg.Op{fresh(12 + k), run[1], run[1]})
 		}
 		enabledHistory(s, c, tops, "enabled-uplink-data-rates-after-history")
+		// a frequency that is already a channel: a default channel's frequency, and the same new
+		// frequency twice - with an equal, an overlapping, an adjacent and a disjoint DR range.
+		// AddChannel adds a channel each time.
+		d0 := first // DR range of the default channels of the extra-channel bands = the first run or its lower part
+		if ch, err := b.GetUplinkChannel(0); err == nil {
+			d0 = [2]int{ch.MinDR, ch.MaxDR}
+		}
+		type rng struct{ lo, hi int }
+		variants := []rng{{d0[0], d0[1]}, {last[1], last[1]}}
+		if d0[1] > d0[0] {
+			variants = append(variants, rng{d0[0] + 1, d0[1]}) // inside / overlapping
+		}
+		for _, run := range runs {
+			if run[0] <= d0[1]+1 && d0[1]+1 <= run[1] {
+				variants = append(variants, rng{d0[1] + 1, d0[1] + 1}, rng{d0[1], d0[1] + 1}) // adjacent, overlapping upwards
+			}
+		}
+		for k, v := range variants {
+			enabledHistory(s, c, []bandcfg.Op{{base[k%len(base)], v.lo, v.hi}}, "enabled-uplink-data-rates-after-reused-frequency")
+			enabledHistory(s, c, []bandcfg.Op{{fresh(20), d0[0], d0[1]}, {fresh(20), v.lo, v.hi}, {fresh(21), first[0], first[0]}}, "enabled-uplink-data-rates-after-reused-frequency")
+		}
+		// a long history: 101 channels on distinct frequencies, single-DR ranges cycling through the runs
+		var long []bandcfg.Op
+		for k := 0; k < 101; k++ {
+			run := runs[k%len(runs)]
+			d := run[0] + (k/len(runs))%(run[1]-run[0]+1)
+			long = append(long, bandcfg.Op{fresh(30 + k), d, d})
+		}
+		if !c.Repeater && !c.Dwell || thorough {
+			enabledHistory(s, c, long, "enabled-uplink-data-rates-after-long-history")
+		}
 		n := 6
 		if thorough {
 			n = 150
